@@ -31,7 +31,7 @@ LEVEL_NOTE = "trusted: click's CliRunner (cross-checked by real subprocess runs)
 # ----------------------------------------------------------------------------- inputs
 def inputs():
     m = S.menu("B2")
-    combo = tuple(sorted(next(j for j, it in enumerate(m) if it[0] == lab) for lab in ("histosys:h1@zc/bkg", "staterror@ab/bkg", "normsys:n1@zc/sig", "lumi@zc/bkg")))
+    combo = tuple(sorted(next(j for j, it in enumerate(m) if it[0] == lab) for lab in ("histosys:h1@zc/bkg", "staterror@ab/bkg", "normsys:n1@zc/sig", "lumi@zc/bkg", "normsys:sys@zc/bkg", "histosys:sys@ab/bkg")))
     _, spec = S.build("B2", combo)
     # observations well below the background expectation: mu_hat sits on its lower bound and q > q_A, the region where q and qtilde differ
     obs = {c["name"]: [float(int(0.7 * sum(s_["data"][b] for s_ in c["samples"] if s_["name"] != "sig"))) for b in range(len(c["samples"][0]["data"]))] for c in spec["channels"]}
@@ -188,8 +188,13 @@ def oracle(cmd, kw, inp, tmp):
         w = pyhf.Workspace(copy.deepcopy(ws))
         meas = w.get_measurement(measurement_name=kw.get("measurement"))
         model = w.model(measurement_name=kw.get("measurement"))
+        types = {}
+        for c in ws["channels"]:
+            for s_ in c["samples"]:
+                for m_ in s_["modifiers"]:
+                    types.setdefault(m_["name"], set()).add(m_["type"])
         return {"channels": [[c, w.channel_nbins[c]] for c in w.channels], "samples": w.samples,
-                "parameters": sorted(model.config.par_map), "default": meas["name"],
+                "parameters": sorted(model.config.par_map), "default": meas["name"], "modifier_types": {k: sorted(v) for k, v in sorted(types.items())},
                 "measurements": [[m["name"], m["config"]["poi"], [p["name"] for p in m["config"]["parameters"]]] for m in w["measurements"]]}
     if cmd == "prune":
         return json.loads(json.dumps(pyhf.Workspace(copy.deepcopy(ws)).prune(**kw)))
@@ -369,7 +374,8 @@ def eval_case(case):
             if outfile:
                 j = json.loads(got_text)
                 got = {"channels": [list(x) for x in j["channels"]], "samples": j["samples"], "parameters": sorted(x[0] for x in j["parameters"]),
-                       "measurements": [list(x) for x in j["measurements"]], "default": exp["default"]}
+                       "measurements": [list(x) for x in j["measurements"]], "default": exp["default"],
+                       "modifier_types": {x[0]: sorted(set(x[2])) for x in sorted(j["systematics"])}}
                 # the text table must be printed as well; it carries the default-measurement marker
                 if parse_inspect(out)["default"] != exp["default"]:
                     issues.append(C.issue("C19:values:inspect:marker", f"default-measurement marker {parse_inspect(out)['default']} != {exp['default']}", **ctx))
@@ -397,7 +403,7 @@ def eval_case(case):
 def parse_inspect(text):
     """parse the plain-text tables of `pyhf inspect` into the same structure the oracle builds."""
     blocks = [b for b in text.strip().split("\n\n")]
-    out = {"channels": [], "samples": [], "parameters": [], "measurements": [], "default": None}
+    out = {"channels": [], "samples": [], "parameters": [], "measurements": [], "default": None, "modifier_types": {}}
     for b in blocks:
         lines = [l for l in b.splitlines() if l.strip()]
         if not lines:
@@ -409,6 +415,7 @@ def parse_inspect(text):
             out["samples"] = [l.strip() for l in lines[2:]]
         elif head[:2] == ["parameters", "constraint"]:
             out["parameters"] = sorted(l.split()[0] for l in lines[2:])
+            out["modifier_types"] = {l.split()[0]: sorted(l.split()[2].split(",")) for l in sorted(lines[2:])}
         elif head[:2] == ["measurement", "poi"]:
             for l in lines[2:]:
                 t = l.split()
